@@ -40,6 +40,8 @@ func main() {
 		runProp(cfg, rep, genWrites, checkEvents, 300, 5000, 4, 8)
 	case "C06":
 		runC06(cfg, rep)
+	case "C04":
+		runC04InMemory(cfg, rep)
 	case "C14":
 		if cfg.Mode == "concurrent" {
 			runC14Concurrent(cfg, rep)
